@@ -171,10 +171,14 @@ def gen_expand(tier, rng):
             out.append(case6(g2a(rng.choice(temps)), ln, st, rng))
         for _ in range(1 if quick else 6):
             out.append(case6(rng.randrange(1 << 128), ln, "canon", rng))
-        if ln % (16 if quick else 1) == 0:
+        if ln % (16 if quick else 1) == 0 or ln in (1, 4, 33, 36, 127, 124):
             out.append(case6(g2a(rng.choice(temps)), ln, "canon", rng, scope=rng.choice(["eth0", "1", "x y", "*"])))
+        if ln in (0, 16, 64, 112, 4, 36, 124, 1, 33, 127):
+            out.append(case6(g2a(temps[36]), ln, "v4tail", rng))
     for g in temps[:: (6 if quick else 1)]:
         out.append(case6(g2a(g), 128, "bare", rng))
+    out.append(case6(g2a(temps[36]), 128, "canon", rng, scope="eth0"))      # scoped host, no zero group
+    out.append(case6(g2a(temps[36]), 128, "bare", rng, scope="7"))
     # ---- hand-picked valid oddities and invalid texts
     for s in VALID_ODD:
         try:
@@ -200,6 +204,7 @@ def gen_expand(tier, rng):
         out.append({"s": s, "exp": None})
     for _ in range(150 if quick else 2000):
         out.append({"s": "".join(rng.choice("0123456789abf.:/%") for _ in range(rng.randint(0, 12))), "exp": None})
+    check_strata(out)
     return out
 
 # ------------------------------------------------------------------ encoding into Coq terms
@@ -232,21 +237,52 @@ def expand_to_coq(c, r):
 
 # ------------------------------------------------------------------ known findings (input classes)
 def fixed_groups_nonzero(a, ln):
-    """premise of theorem C18_v6_cover_partial: every completely fixed 16-bit group of the nibble-aligned
-    subnets is non-zero"""
-    nl = ln + (4 - ln % 4) % 4
-    return all(x != 0 for x in groups6(a)[: nl // 16])
+    """Spec.Net.fixed_nonzero6, the premise of theorem C18_v6_cover: every completely fixed 16-bit group of
+    every nibble-aligned subnet the expansion enumerates is non-zero"""
+    d = (4 - ln % 4) % 4
+    nl = ln + d
+    step = 1 << (128 - nl)
+    return all(x != 0 for i in range(1 << d) for x in groups6(a + i * step)[: nl // 16])
 
 def known_expand(c, r):
+    # input class of D20 = complement of the premise fixed_nonzero6 of C18_v6_cover
     if isinstance(r, dict) and r.get("v") == 6:
         if not fixed_groups_nonzero(int(r["addr"]), r["len"]):
             return "D20-ipv6-expansion-misses-addresses"
     return None
 
+def v6_stratum(s, a, ln, scope):
+    """prefix length on / off hextet and nibble boundaries x form of the text"""
+    b = "len%16=0" if ln % 16 == 0 else "len%4=0" if ln % 4 == 0 else "len%4!=0"
+    addr = s.split("/")[0].split("%")[0]
+    if scope: form = "scoped"
+    elif "." in addr: form = "embedded-ipv4"
+    elif addr.startswith("::"): form = "::-start"
+    elif addr.endswith("::"): form = "::-end"
+    elif "::" in addr: form = "::-middle"
+    else: form = "no-::"
+    return f"v6 {b} {form}"
+
+V6_BOUNDS = ["len%16=0", "len%4=0", "len%4!=0"]
+V6_FORMS = ["scoped", "embedded-ipv4", "::-start", "::-end", "::-middle", "no-::"]
+
 def stratum_expand(c, r):
     if isinstance(r, dict) and "exc" in r:
         return "rejected" if r.get("sigma") else "crash"
-    return f"v{r['v']}"
+    if r["v"] == 6:
+        return v6_stratum(c["s"], int(r["addr"]), r["len"], r["scope"])
+    return "v4 len%8=0" if r["len"] % 8 == 0 else "v4 len%8!=0"
+
+def check_strata(cases):
+    """every declared IPv6 stratum (boundary class x text form) must be populated by the generator"""
+    seen = set()
+    for c in cases:
+        e = c.get("exp")
+        if isinstance(e, dict) and e["v"] == 6:
+            seen.add(v6_stratum(c["s"], int(e["addr"]), e["len"], e["scope"]))
+    missing = [f"v6 {b} {f}" for b in V6_BOUNDS for f in V6_FORMS if f"v6 {b} {f}" not in seen]
+    if missing:
+        raise RuntimeError("C18 generator: empty IPv6 strata: " + ", ".join(missing))
 
 def mutate_expand(c, rng):
     out = []
@@ -339,7 +375,9 @@ PROPERTY = Property(
     rule="IPv4: all prefix lengths 0..32 x 15 boundary addresses + random, spelled with prefix length, zero-padded length, "
          "netmask, host mask and bare; exactness decided on integer ranges. IPv6: all prefix lengths 0..128 x zero runs at "
          "every group position and of every length (+ random), seven spellings, scope ids; coverage decided on the network's "
-         "first/last addresses and zero/non-zero placements of the free groups. Invalid texts (hand-picked, host bits set for "
+         "first/last addresses and zero/non-zero placements of the free groups; declared IPv6 strata (prefix length on a hextet "
+         "boundary / on a nibble boundary / off it) x (scoped, embedded IPv4, '::' at start / middle / end, no '::') must all be "
+         "populated or the run fails. Invalid texts (hand-picked, host bits set for "
          "every length), mutated and random texts. non-trivial = prefix length not on an octet boundary (IPv4), strictly "
          "between 0 and 128 (IPv6), or an invalid text; distinct by (suite, case hash)",
     assumptions=["CPython's ipaddress module (text -> network, canonical text, subnets, netmask) is modelled in Model/Cidr.v; "
